@@ -1,55 +1,307 @@
 import Lemmas.FixedTextLaws
 import Generated.Facts
-/-! C04 helper lemmas, part 9: what integer-target CheckedAs accepts, in closed form, for the sixteen configurations of
-    the source and the eight (width, signedness) pairs of Go's integer types.  The proofs run over the literal table:
-    with the multiplier a numeral everything is linear and `omega` decides it after the case split
-    "the integer part fits the target / it does not". -/
+/-! C04 helper lemmas, part 9: what integer-target CheckedAs accepts, in closed form. -/
 namespace FixedText
 
 /-- the distinct (width, signedness) pairs of the eleven integer target types -/
 def signedTargets : List Target := [⟨8, true⟩, ⟨16, true⟩, ⟨32, true⟩, ⟨64, true⟩]
 def narrowUnsignedTargets : List Target := [⟨8, false⟩, ⟨16, false⟩, ⟨32, false⟩]
-def unsignedTargets : List Target := [⟨8, false⟩, ⟨16, false⟩, ⟨32, false⟩, ⟨64, false⟩]
+def allTargets : List Target := signedTargets ++ narrowUnsignedTargets ++ [⟨64, false⟩]
 
 /-- the value `n` lies in the range of the target type -/
 def inRange (t : Target) (n : Int) : Prop :=
   if t.signed then -(2^(t.bits - 1)) ≤ n ∧ n < 2^(t.bits - 1) else 0 ≤ n ∧ n < 2^t.bits
 
-theorem pos_of_config : ∀ c ∈ Facts.fixedConfigs, (0 : Int) < c.2 := by decide
+/-! ### the arithmetic core (multiplier a variable, products as atoms) -/
+
+/-- target range `[lo, hi)` with `0 ≤ hi ≤ 2^63`, `-2^63 ≤ lo ≤ 0`; `n` is in it and equals the integer part `q` whenever
+    `q` is in it; `n·m ≡ raw (mod 2^64)`.  If `q` lies outside on the positive side, or on the negative side of a
+    SIGNED-style range (`lo = -hi`), the congruence is impossible; hence `raw = n·m`. -/
+theorem core_exact (m raw q r n lo hi : Int) (hm : 0 < m) (hm64 : m < 2^63)
+    (hr : -(2^63) ≤ raw ∧ raw < 2^63)
+    (h1 : raw = m * q + r) (h2 : -m < r) (h3 : r < m)
+    (h4 : 0 ≤ raw → 0 ≤ r ∧ 0 ≤ q) (h5 : raw ≤ 0 → r ≤ 0 ∧ q ≤ 0)
+    (hlo : lo = -hi ∨ (lo = 0 ∧ 0 ≤ raw)) (hhi : 0 < hi ∧ hi ≤ 2^63)
+    (hn : lo ≤ n ∧ n < hi) (hnq : (lo ≤ q ∧ q < hi) → n = q)
+    (hf : ∃ j : Int, n * m - raw = j * 2^64) : raw = n * m := by
+  obtain ⟨j, hj⟩ := hf
+  by_cases hA : lo ≤ q ∧ q < hi
+  · have := hnq hA
+    subst this
+    have : n * m = m * n := Int.mul_comm _ _
+    omega
+  · exfalso
+    have hX1 : lo * m ≤ n * m := Int.mul_le_mul_of_nonneg_right hn.1 (by omega)
+    have hX2 : n * m < hi * m := Int.mul_lt_mul_of_pos_right hn.2 hm
+    have hY : q * m = m * q := Int.mul_comm _ _
+    by_cases hq : hi ≤ q
+    · have hZ : hi * m ≤ q * m := Int.mul_le_mul_of_nonneg_right hq (by omega)
+      have hraw : 0 ≤ raw := by
+        by_cases hh : 0 ≤ raw
+        · exact hh
+        · have := (h5 (by omega)).2; omega
+      have := h4 hraw
+      have hlm : -(hi * m) ≤ lo * m := by
+        rcases hlo with h | h
+        · rw [h, Int.neg_mul]
+        · rw [h.1, Int.zero_mul]
+          have : 0 ≤ hi * m := Int.mul_nonneg (by omega) (by omega)
+          omega
+      omega
+    · have hq' : q < lo := by omega
+      rcases hlo with h | h
+      · -- signed style: lo = -hi
+        have hZ : q * m < lo * m := Int.mul_lt_mul_of_pos_right hq' hm
+        have hraw : raw ≤ 0 := by
+          by_cases hh : raw ≤ 0
+          · exact hh
+          · have := (h4 (by omega)).2; omega
+        have := h5 hraw
+        have hlm : lo * m = -(hi * m) := by rw [h, Int.neg_mul]
+        omega
+      · have := (h4 h.2).2; omega
 
 /-! ### f64 -/
 
+theorem config_bounds : ∀ c ∈ Facts.fixedConfigs, (0 : Int) < c.2 ∧ c.2 < 2^54 := by decide
+
+/-- `conv` of a signed target with half-range `B` -/
+theorem conv_signed (t : Target) (ht : t ∈ signedTargets) :
+    ∃ B : Int, 0 < B ∧ B ≤ 2^63 ∧ (2:Int)^(t.bits - 1) = B ∧ ∀ z, conv t z = (z + B) % (2 * B) - B := by
+  simp only [signedTargets, List.mem_cons, List.not_mem_nil, or_false] at ht
+  rcases ht with rfl | rfl | rfl | rfl
+  · exact ⟨2^7, by omega, by omega, rfl, fun z => by simp [conv]⟩
+  · exact ⟨2^15, by omega, by omega, rfl, fun z => by simp [conv]⟩
+  · exact ⟨2^31, by omega, by omega, rfl, fun z => by simp [conv]⟩
+  · exact ⟨2^63, by omega, by omega, rfl, fun z => by simp [conv]⟩
+
+theorem emod_range (z B : Int) (hB : 0 < B) :
+    -B ≤ (z + B) % (2 * B) - B ∧ (z + B) % (2 * B) - B < B ∧ ((-B ≤ z ∧ z < B) → (z + B) % (2 * B) - B = z) := by
+  have h1 := Int.emod_nonneg (z + B) (show 2 * B ≠ 0 by omega)
+  have h2 := Int.emod_lt_of_pos (z + B) (show 0 < 2 * B by omega)
+  refine ⟨by omega, by omega, fun h => ?_⟩
+  rw [Int.emod_eq_of_lt (by omega) (by omega)]; omega
+
 /-- signed targets: success ⇔ the value is the whole number `n` and `n` fits the target -/
-theorem checkedAs64_signed : ∀ c ∈ Facts.fixedConfigs, ∀ t ∈ signedTargets, ∀ raw n : Int, fits64 raw = true →
+theorem checkedAs64_signed (m : Int) (hm : 0 < m) (hm54 : m < 2^54) (t : Target) (ht : t ∈ signedTargets)
+    (raw n : Int) (hr : fits64 raw = true) :
+    checkedAs64 m t raw = some n ↔ raw = n * m ∧ inRange t n := by
+  obtain ⟨h1, h2, h3, h4, h5⟩ := tdiv_facts raw m hm
+  obtain ⟨B, hB0, hB63, hBp, hconv⟩ := conv_signed t ht
+  have hsg : t.signed = true := by
+    simp only [signedTargets, List.mem_cons, List.not_mem_nil, or_false] at ht
+    rcases ht with rfl | rfl | rfl | rfl <;> rfl
+  simp only [fits64, Bool.and_eq_true, decide_eq_true_eq] at hr
+  unfold checkedAs64 as64 from64 inRange
+  simp only [ne_eq, ite_not, hsg, if_true, hBp, hconv]
+  generalize hq : raw.tdiv m = q at *
+  generalize hrr : raw.tmod m = r at *
+  obtain ⟨e1, e2, e3⟩ := emod_range q B hB0
+  generalize hnn : (q + B) % (2 * B) - B = n' at *
+  constructor
+  · intro hh
+    split at hh
+    · rename_i hf
+      cases hh
+      have hc := wrap64_cong (wrap64 n * m)
+      rw [hf] at hc
+      obtain ⟨k, hk⟩ := hc
+      have hw : wrap64 n = n := by unfold wrap64; omega
+      rw [hw] at hk
+      exact ⟨core_exact m raw q r n (-B) B hm (by omega) hr h1 h2 h3 h4 h5 (Or.inl rfl)
+        (by omega) (by omega) e3 ⟨-k, by omega⟩, by omega⟩
+    · cases hh
+  · rintro ⟨hraw, hn⟩
+    have hqn : q = n := by
+      have : raw.tdiv m = n := by rw [hraw]; exact Int.mul_tdiv_cancel _ (by omega)
+      rw [hq] at this; exact this
+    subst hqn
+    have hcv : n' = q := (e3 hn).symm ▸ rfl
+    have hw : wrap64 q = q := by unfold wrap64; omega
+    rw [hcv, hw, ← hraw, wrap64_of_fits raw (by simp [fits64]; omega)]
+    simp
+
+/-- `uint64` / `uint` / `uintptr`: f64 converts back through `int64(n)`, so the test only sees the value modulo 2^64:
+    success ⇔ the value is a whole number — of EITHER sign; a negative whole number `q` is returned as `q + 2^64` -/
+theorem checkedAs64_u64 (m : Int) (hm : 0 < m) (hm54 : m < 2^54) (raw n : Int) (hr : fits64 raw = true) :
+    checkedAs64 m ⟨64, false⟩ raw = some n ↔ raw.tmod m = 0 ∧ n = (raw.tdiv m) % 2^64 := by
+  obtain ⟨h1, h2, h3, h4, h5⟩ := tdiv_facts raw m hm
+  unfold checkedAs64 as64 from64
+  simp only [ne_eq, ite_not, conv, Bool.false_eq_true, if_false]
+  generalize hq : raw.tdiv m = q at *
+  generalize hrr : raw.tmod m = r at *
+  have hcq : C64 (wrap64 (q % 2^64) * m) (q * m) := by
+    apply C64.mul
+    refine C64.trans (C64.wrap _) ⟨-(q / 2^64), ?_⟩
+    have := Int.emod_add_mul_ediv q (2^64)
+    omega
+  have hqm : q * m = m * q := Int.mul_comm _ _
+  constructor
+  · intro hh
+    split at hh
+    · rename_i hf
+      cases hh
+      refine ⟨?_, rfl⟩
+      obtain ⟨k1, hk1⟩ := wrap64_cong (wrap64 (q % 2^64) * m)
+      obtain ⟨k2, hk2⟩ := hcq
+      rw [hf] at hk1
+      omega
+    · cases hh
+  · rintro ⟨hr0, rfl⟩
+    rw [if_pos]
+    apply C64.wrap_eq hr
+    rw [show raw = q * m by omega]
+    exact hcq
+
+/-- the one arithmetic fact about the table that the narrow unsigned targets need: `2^w · mult` either stays below 2^63
+    or is, modulo 2^64, further than `mult` away from the next multiple of 2^64 -/
+theorem narrow_table : ∀ c ∈ Facts.fixedConfigs, ∀ W ∈ [(2:Int)^8, 2^16, 2^32],
+    W * c.2 ≤ 2^63 ∨ (0 < (W * c.2) % 2^64 ∧ (W * c.2) % 2^64 + c.2 ≤ 2^64) := by decide
+
+/-- a negative value is never accepted by a narrow unsigned target -/
+theorem narrow_neg_reject (m W raw q r n : Int) (hm : 0 < m) (hW : 0 < W ∧ W ≤ 2^32)
+    (hr : -(2^63) ≤ raw ∧ raw < 0) (h1 : raw = m * q + r) (h2 : -m < r) (hq0 : q ≤ 0) (hr0 : r ≤ 0)
+    (hn : n = q % W)
+    (htab : W * m ≤ 2^63 ∨ (0 < (W * m) % 2^64 ∧ (W * m) % 2^64 + m ≤ 2^64))
+    (hf : ∃ j : Int, n * m - raw = j * 2^64) : False := by
+  obtain ⟨j, hj⟩ := hf
+  have hn0 := Int.emod_nonneg q (show W ≠ 0 by omega)
+  have hnW := Int.emod_lt_of_pos q hW.1
+  rw [← hn] at hn0 hnW
+  have hX0 : 0 ≤ n * m := Int.mul_nonneg hn0 (by omega)
+  have hXW : n * m < W * m := Int.mul_lt_mul_of_pos_right hnW hm
+  rcases htab with ht | ht
+  · omega
+  · by_cases hZ : W * m ≤ 2^63
+    · omega
+    · -- the integer part is small: -W < q
+      have hqm : q * m = m * q := Int.mul_comm _ _
+      have hlt : (-q) * m < W * m := by rw [Int.neg_mul]; omega
+      have hqW : -q < W := Int.lt_of_mul_lt_mul_right hlt (by omega)
+      by_cases hqz : q = 0
+      · subst hqz
+        have : n = 0 := by rw [hn]; simp
+        subst this
+        omega
+      · have hnq : n = q + W := by
+          rw [hn, ← Int.add_emod_right q W, Int.emod_eq_of_lt (by omega) (by omega)]
+        have : n * m = q * m + W * m := by rw [hnq, Int.add_mul]
+        omega
+
+/-- `uint8` / `uint16` / `uint32`: success ⇔ the value is the whole number `n` and `0 ≤ n < 2^w` -/
+theorem checkedAs64_narrow : ∀ c ∈ Facts.fixedConfigs, ∀ t ∈ narrowUnsignedTargets, ∀ raw n : Int, fits64 raw = true →
     (checkedAs64 c.2 t raw = some n ↔ raw = n * c.2 ∧ inRange t n) := by
   intro c hc t ht raw n hr
-  have hpos := pos_of_config c hc
-  obtain ⟨h1, h2, h3, h4, h5⟩ := tdiv_facts raw c.2 hpos
+  obtain ⟨hm, hm54⟩ := config_bounds c hc
+  generalize hmm : c.2 = m at *
+  obtain ⟨h1, h2, h3, h4, h5⟩ := tdiv_facts raw m hm
+  -- the target as a modulus W
+  have hWt : ∃ W : Int, W ∈ [(2:Int)^8, 2^16, 2^32] ∧ t.signed = false ∧ (2:Int)^t.bits = W ∧ ∀ z, conv t z = z % W := by
+    simp only [narrowUnsignedTargets, List.mem_cons, List.not_mem_nil, or_false] at ht
+    rcases ht with rfl | rfl | rfl
+    · exact ⟨2^8, by simp, rfl, rfl, fun z => by simp [conv]⟩
+    · exact ⟨2^16, by simp, rfl, rfl, fun z => by simp [conv]⟩
+    · exact ⟨2^32, by simp, rfl, rfl, fun z => by simp [conv]⟩
+  obtain ⟨W, hWm, hsg, hWp, hconv⟩ := hWt
+  have htab := narrow_table c hc W hWm
+  rw [hmm] at htab
+  have hW : 0 < W ∧ W ≤ 2^32 := by
+    simp only [List.mem_cons, List.not_mem_nil, or_false] at hWm
+    rcases hWm with rfl | rfl | rfl <;> omega
   simp only [fits64, Bool.and_eq_true, decide_eq_true_eq] at hr
-  unfold checkedAs64 as64 from64 conv wrap64 inRange
-  generalize raw.tdiv c.2 = q at *
-  generalize raw.tmod c.2 = r at *
-  simp only [Facts.fixedConfigs, List.mem_cons, List.not_mem_nil, or_false] at hc
-  simp only [signedTargets, List.mem_cons, List.not_mem_nil, or_false] at ht
-  rcases hc with rfl | rfl | rfl | rfl | rfl | rfl | rfl | rfl | rfl | rfl | rfl | rfl | rfl | rfl | rfl | rfl <;>
-  rcases ht with rfl | rfl | rfl | rfl <;>
-  simp only [if_true, ne_eq, ite_not] at * <;>
-  (constructor
-   · intro hh
-     split at hh
-     · rename_i hf
-       cases hh
-       first
-       | omega
-       | (by_cases hA : -(2^7) ≤ q ∧ q < 2^7 <;> omega)
-       | (by_cases hA : -(2^15) ≤ q ∧ q < 2^15 <;> omega)
-       | (by_cases hA : -(2^31) ≤ q ∧ q < 2^31 <;> omega)
-     · cases hh
-   · rintro ⟨rfl, hn⟩
-     have hq : q = n := by omega
-     subst hq
-     rw [if_pos (by omega)]
-     congr 1
-     omega)
+  unfold checkedAs64 as64 from64 inRange
+  simp only [ne_eq, ite_not, hsg, Bool.false_eq_true, if_false, hWp, hconv]
+  generalize hq : raw.tdiv m = q at *
+  generalize hrr : raw.tmod m = r at *
+  have hn0 := Int.emod_nonneg q (show W ≠ 0 by omega)
+  have hnW := Int.emod_lt_of_pos q hW.1
+  have hnq : (0 ≤ q ∧ q < W) → q % W = q := fun h => Int.emod_eq_of_lt h.1 h.2
+  generalize hnn : q % W = n' at *
+  constructor
+  · intro hh
+    split at hh
+    · rename_i hf
+      cases hh
+      obtain ⟨k, hk⟩ := wrap64_cong (wrap64 n * m)
+      rw [hf] at hk
+      have hw : wrap64 n = n := by unfold wrap64; omega
+      rw [hw] at hk
+      by_cases hneg : raw < 0
+      · exact absurd (narrow_neg_reject m W raw q r n hm hW ⟨hr.1, hneg⟩ h1 h2 (h5 (by omega)).2 (h5 (by omega)).1
+          hnn.symm htab ⟨-k, by omega⟩) id
+      · exact ⟨core_exact m raw q r n 0 W hm (by omega) hr h1 h2 h3 h4 h5 (Or.inr ⟨rfl, by omega⟩)
+          (by omega) (by omega) hnq ⟨-k, by omega⟩, by omega⟩
+    · cases hh
+  · rintro ⟨hraw, hn⟩
+    have hqn : q = n := by
+      have : raw.tdiv m = n := by rw [hraw]; exact Int.mul_tdiv_cancel _ (by omega)
+      rw [hq] at this; exact this
+    subst hqn
+    have hcv : n' = q := hnq hn
+    have hw : wrap64 q = q := by unfold wrap64; omega
+    rw [hcv, hw, ← hraw, wrap64_of_fits raw (by simp [fits64]; omega)]
+    simp
+
+/-! ### f128 -/
+
+theorem wrap128_of_fits' (z : Int) (h : -(2^127) ≤ z ∧ z < 2^127) : wrap128 z = z := by
+  unfold wrap128; omega
+
+/-- every target, signed or not: success ⇔ the value is the whole number `n` and `n` fits the target.  (f128 converts
+    back through `uint64` for unsigned kinds, so — unlike f64 — a negative whole number is rejected by `uint64`.) -/
+theorem checkedAs128_all (m : Int) (hm : 0 < m) (hm54 : m < 2^54) (t : Target) (ht : t ∈ allTargets)
+    (raw n : Int) (hr : fits128 raw = true) :
+    checkedAs128 m t raw = some n ↔ raw = n * m ∧ inRange t n := by
+  simp only [fits128, Bool.and_eq_true, decide_eq_true_eq] at hr
+  unfold checkedAs128 as128 from128 inRange
+  simp only [ne_eq, ite_not]
+  generalize hq : raw.tdiv m = q at *
+  -- the converted value is in the range of the target
+  have hrange : ∀ z : Int, (if t.signed then -(2^(t.bits - 1)) ≤ conv t z ∧ conv t z < 2^(t.bits - 1)
+      else 0 ≤ conv t z ∧ conv t z < 2^t.bits) ∧ -(2^64) ≤ conv t z ∧ conv t z < 2^64 := by
+    intro z
+    simp only [allTargets, signedTargets, narrowUnsignedTargets, List.cons_append, List.nil_append, List.mem_cons,
+      List.not_mem_nil, or_false] at ht
+    rcases ht with rfl | rfl | rfl | rfl | rfl | rfl | rfl | rfl <;> simp [conv] <;> omega
+  have hfix : ∀ z : Int, (if t.signed then -(2^(t.bits - 1)) ≤ z ∧ z < 2^(t.bits - 1) else 0 ≤ z ∧ z < 2^t.bits) →
+      conv t (wrap64 z) = z := by
+    intro z hz
+    simp only [allTargets, signedTargets, narrowUnsignedTargets, List.cons_append, List.nil_append, List.mem_cons,
+      List.not_mem_nil, or_false] at ht
+    rcases ht with rfl | rfl | rfl | rfl | rfl | rfl | rfl | rfl <;> simp [conv, wrap64] at hz ⊢ <;> omega
+  have hback : ∀ z : Int, -(2^64) ≤ z ∧ z < 2^64 →
+      (if t.signed then -(2^(t.bits - 1)) ≤ z ∧ z < 2^(t.bits - 1) else 0 ≤ z ∧ z < 2^t.bits) →
+      (if t.signed = true then wrap128 (wrap64 z * m) else wrap128 (z % 2^64 * m)) = z * m := by
+    intro z hz hzr
+    have hb1 : z * m ≤ 2^64 * m := Int.mul_le_mul_of_nonneg_right (by omega) (by omega)
+    have hb2 : -(2^64) * m ≤ z * m := Int.mul_le_mul_of_nonneg_right (by omega) (by omega)
+    have hfit : wrap128 (z * m) = z * m := wrap128_of_fits' _ (by omega)
+    simp only [allTargets, signedTargets, narrowUnsignedTargets, List.cons_append, List.nil_append, List.mem_cons,
+      List.not_mem_nil, or_false] at ht
+    rcases ht with rfl | rfl | rfl | rfl | rfl | rfl | rfl | rfl <;> simp at hzr ⊢ <;>
+      first
+      | (have : wrap64 z = z := by unfold wrap64; omega
+         rw [this, hfit])
+      | (have : z % 18446744073709551616 = z := Int.emod_eq_of_lt (by omega) (by omega)
+         rw [this, hfit])
+  constructor
+  · intro hh
+    obtain ⟨hr1, hr2⟩ := hrange (wrap64 q)
+    rw [hback _ hr2 hr1] at hh
+    split at hh
+    · rename_i hf
+      cases hh
+      exact ⟨hf.symm, hr1⟩
+    · cases hh
+  · rintro ⟨hraw, hn⟩
+    have hqn : q = n := by
+      have : raw.tdiv m = n := by rw [hraw]; exact Int.mul_tdiv_cancel _ (by omega)
+      rw [hq] at this; exact this
+    subst hqn
+    have hn64 : -(2^64) ≤ q ∧ q < 2^64 := by
+      have := hrange (wrap64 q)
+      rw [hfix q hn] at this
+      exact this.2
+    rw [hfix q hn, hback q hn64 hn, if_pos hraw.symm]
 
 end FixedText
